@@ -4186,9 +4186,7 @@ class FuncSum(ValueFunc):
             if skipvalue:
                 continue
 
-            if value.isInt():
-                result += value.value
-            elif value.isDecimal():
+            if value.isInt() or value.isDecimal():
                 try:
                     result += value.value
                 except OverflowError:
@@ -4197,7 +4195,8 @@ class FuncSum(ValueFunc):
                         "Int is too large for a decimal",
                         pos,
                     )
-                decimalrequired = True
+                if value.isDecimal():
+                    decimalrequired = True
             else:
                 raise CklRuntimeError(
                     ValueString("ERROR"), "Cannot sum " + value.type(), pos
